@@ -11,6 +11,7 @@ import (
 	"runtime/debug"
 	"sort"
 	"strings"
+	"sync"
 )
 
 // thorough adds the deeper tier on top of the quick verdict (which is decided
@@ -125,85 +126,139 @@ func selftest(c *Ctx, spec *propSpec, base map[string]bool) map[string]interface
 	if err != nil {
 		return map[string]interface{}{"ok": false, "error": err.Error()}
 	}
-	var entries []selftestEntry
-	ok := true
-	caught, missed, quiet, alarms, skipped := 0, 0, 0, 0, 0
-	for _, f := range files {
-		e := selftestEntry{Patch: strings.TrimPrefix(f.path, vdir+"/"), Kind: f.kind}
-		scratch, err := os.MkdirTemp("", "vcheck-self-")
+	// behaviour-preserving patches are relevant to this property only if they touch a directory in which one of its
+	// obligations lives (the others cannot change any of its verdicts and are exercised by their own properties)
+	dirs := map[string]bool{}
+	for _, o := range c.Obls {
+		if i := strings.LastIndex(o.Pos, "/"); i > 0 {
+			dirs[o.Pos[:i]] = true
+		}
+	}
+	relevant := func(patch string) bool {
+		data, err := os.ReadFile(patch)
 		if err != nil {
-			e.Result = "error: " + err.Error()
-			entries = append(entries, e)
+			return true
+		}
+		for _, ln := range strings.Split(string(data), "\n") {
+			if strings.HasPrefix(ln, "+++ b/") {
+				f := strings.TrimPrefix(ln, "+++ b/")
+				if i := strings.LastIndex(f, "/"); i > 0 && dirs[f[:i]] {
+					return true
+				}
+			}
+		}
+		return false
+	}
+	var kept []struct{ path, kind string }
+	notRelevant := 0
+	for _, f := range files {
+		if f.kind == "neutral" && !relevant(f.path) {
+			notRelevant++
 			continue
 		}
-		func() {
-			defer os.RemoveAll(scratch)
-			repoCopy := filepath.Join(scratch, "repo")
-			if err := copyTree(c.P.RepoDir, repoCopy); err != nil {
+		kept = append(kept, f)
+	}
+	files = kept
+	entries := make([]selftestEntry, len(files))
+	ok := true
+	caught, missed, quiet, alarms, skipped := 0, 0, 0, 0, 0
+	var mu sync.Mutex
+	sem := make(chan struct{}, 4)
+	var wg sync.WaitGroup
+	for fi, f := range files {
+		fi, f := fi, f
+		wg.Add(1)
+		sem <- struct{}{}
+		go func() {
+			defer func() { <-sem; wg.Done() }()
+			e := selftestEntry{Patch: strings.TrimPrefix(f.path, vdir+"/"), Kind: f.kind}
+			scratch, err := os.MkdirTemp("", "vcheck-self-")
+			if err != nil {
 				e.Result = "error: " + err.Error()
+				mu.Lock()
+				entries[fi] = e
+				mu.Unlock()
 				return
 			}
-			ap := exec.Command("git", "apply", "--whitespace=nowarn", f.path)
-			ap.Dir = repoCopy
-			if out, err := ap.CombinedOutput(); err != nil {
-				ap2 := exec.Command("patch", "-p1", "-s", "-i", f.path)
-				ap2.Dir = repoCopy
-				if out2, err2 := ap2.CombinedOutput(); err2 != nil {
-					e.Result = "skipped (patch does not apply to the current tree)"
-					_ = out
-					_ = out2
-					skipped++
+			func() {
+				defer os.RemoveAll(scratch)
+				repoCopy := filepath.Join(scratch, "repo")
+				if err := copyTree(c.P.RepoDir, repoCopy); err != nil {
+					e.Result = "error: " + err.Error()
 					return
 				}
-			}
-			ev := filepath.Join(scratch, "ev")
-			os.MkdirAll(ev, 0o755)
-			cmd := exec.Command(exe, "-property", spec.ID, "-tier", "quick")
-			cmd.Env = append(os.Environ(), "VERIF_REPO="+repoCopy, "VERIF_EVIDENCE_DIR="+ev, "VERIF_DIR="+vdir)
-			out, _ := cmd.CombinedOutput()
-			got := map[string]bool{}
-			for _, m := range reportRe.FindAllStringSubmatch(string(out), -1) {
-				got[m[2]+"|"+m[3]] = true
-			}
-			if strings.Contains(string(out), "LOAD-FAILURE") {
-				got["infra|load-failure"] = true
-			}
-			var newFails []string
-			for k := range got {
-				if !base[k] {
-					newFails = append(newFails, k)
+				ap := exec.Command("git", "apply", "--whitespace=nowarn", f.path)
+				ap.Dir = repoCopy
+				if out, err := ap.CombinedOutput(); err != nil {
+					ap2 := exec.Command("patch", "-p1", "-s", "-i", f.path)
+					ap2.Dir = repoCopy
+					if out2, err2 := ap2.CombinedOutput(); err2 != nil {
+						e.Result = "skipped (patch does not apply to the current tree)"
+						_ = out
+						_ = out2
+						return
+					}
 				}
-			}
-			sort.Strings(newFails)
-			e.NewFails = newFails
-			switch f.kind {
-			case "neutral":
-				if len(newFails) == 0 {
-					e.Result = "quiet"
-					quiet++
-				} else {
-					e.Result = "FALSE-ALARM"
-					alarms++
-					ok = false
+				ev := filepath.Join(scratch, "ev")
+				os.MkdirAll(ev, 0o755)
+				cmd := exec.Command(exe, "-property", spec.ID, "-tier", "quick")
+				cmd.Env = append(os.Environ(), "VERIF_REPO="+repoCopy, "VERIF_EVIDENCE_DIR="+ev, "VERIF_DIR="+vdir)
+				out, _ := cmd.CombinedOutput()
+				got := map[string]bool{}
+				for _, m := range reportRe.FindAllStringSubmatch(string(out), -1) {
+					got[m[2]+"|"+m[3]] = true
 				}
-			default:
-				if len(newFails) > 0 {
-					e.Result = "caught"
-					caught++
-				} else {
-					e.Result = "MISSED"
-					missed++
-					ok = false
+				if strings.Contains(string(out), "LOAD-FAILURE") {
+					got["infra|load-failure"] = true
 				}
+				var newFails []string
+				for k := range got {
+					if !base[k] {
+						newFails = append(newFails, k)
+					}
+				}
+				sort.Strings(newFails)
+				e.NewFails = newFails
+				switch f.kind {
+				case "neutral":
+					if len(newFails) == 0 {
+						e.Result = "quiet"
+					} else {
+						e.Result = "FALSE-ALARM"
+					}
+				default:
+					if len(newFails) > 0 {
+						e.Result = "caught"
+					} else {
+						e.Result = "MISSED"
+					}
+				}
+			}()
+			mu.Lock()
+			switch {
+			case strings.HasPrefix(e.Result, "skipped"):
+				skipped++
+			case e.Result == "quiet":
+				quiet++
+			case e.Result == "FALSE-ALARM":
+				alarms++
+				ok = false
+			case e.Result == "caught":
+				caught++
+			case e.Result == "MISSED":
+				missed++
+				ok = false
 			}
+			if strings.HasPrefix(e.Result, "MISSED") || strings.HasPrefix(e.Result, "FALSE-ALARM") {
+				fmt.Printf("SELFTEST-MISS property=%s %s %s %v\n", spec.ID, e.Result, e.Patch, e.NewFails)
+			}
+			entries[fi] = e
+			mu.Unlock()
 		}()
-		if strings.HasPrefix(e.Result, "MISSED") || strings.HasPrefix(e.Result, "FALSE-ALARM") {
-			fmt.Printf("SELFTEST-MISS property=%s %s %s %v\n", spec.ID, e.Result, e.Patch, e.NewFails)
-		}
-		entries = append(entries, e)
 	}
-	fmt.Printf("SELFTEST property=%s mutants caught=%d missed=%d neutral quiet=%d false-alarm=%d skipped=%d\n", spec.ID, caught, missed, quiet, alarms, skipped)
-	return map[string]interface{}{"ok": ok, "caught": caught, "missed": missed, "neutral_quiet": quiet, "false_alarms": alarms, "skipped": skipped, "entries": entries,
+	wg.Wait()
+	fmt.Printf("SELFTEST property=%s mutants caught=%d missed=%d neutral quiet=%d false-alarm=%d skipped=%d (neutral patches not touching this property's directories: %d not run)\n", spec.ID, caught, missed, quiet, alarms, skipped, notRelevant)
+	return map[string]interface{}{"ok": ok, "caught": caught, "missed": missed, "neutral_quiet": quiet, "false_alarms": alarms, "skipped": skipped, "neutral_not_relevant": notRelevant, "entries": entries,
 		"note": "self-test never changes the exit status: the verdict on the property is decided by the analysis of /repo alone"}
 }
 
